@@ -121,3 +121,72 @@ package network
 //@   ensures [genetic] result.Id == n.Id && result.NeuronType == n.NeuronType && result.ActivationType == n.ActivationType && result.Trait == t
 //@   ensures [empty] len(result.Incoming) == 0 && len(result.Outgoing) == 0 && result.PhenotypeAnalogue == nil
 //@   ensures [runtime] result.Activation == 0.0 && result.ActivationsCount == 0 && result.ActivationSum == 0.0 && result.lastActivation == 0.0 && result.lastActivation2 == 0.0 && !result.isActive && !result.visited
+
+// ---- C13: flushing restores the run-time state of a freshly built instance ----------------------
+// Run-time state of a node = (Activation, ActivationsCount, lastActivation, lastActivation2, isActive, visited);
+// NewNetworkNode / NewNNodeCopy establish all-zero (see [runtime] above), Flushback re-establishes it.
+//@ pred rtZero(m *NNode) = m.Activation == 0.0 && m.ActivationsCount == 0 && m.lastActivation == 0.0 && m.lastActivation2 == 0.0 && !m.isActive && !m.visited
+//@ func NewNetworkNode
+//@   props C13
+//@   modifies nothing
+//@   ensures [fresh] fresh(result)
+//@   ensures [runtime] rtZero(result) && result.ActivationSum == 0.0
+//@ func (*NNode).Flushback
+//@   props C13
+//@   requires n != nil
+//@   modifies NNode.Activation, NNode.ActivationsCount, NNode.lastActivation, NNode.lastActivation2, NNode.isActive, NNode.visited
+//@   noalloc
+//@   ensures [reset] rtZero(n)
+//@   ensures [others] forall m *NNode :: m != n ==> m.Activation == old(m.Activation) && m.ActivationsCount == old(m.ActivationsCount) && m.lastActivation == old(m.lastActivation) && m.lastActivation2 == old(m.lastActivation2) && m.isActive == old(m.isActive) && m.visited == old(m.visited)
+//@ func (*NNode).FlushbackCheck
+//@   props C13
+//@   requires n != nil
+//@   modifies nothing
+//@   ensures [okWhenZero] rtZero(n) ==> result == nil
+//@ func (*Network).Flush
+//@   props C13
+//@   requires n != nil && (forall i :: 0 <= i && i < len(n.allNodes) ==> n.allNodes[i] != nil)
+//@   modifies NNode.Activation, NNode.ActivationsCount, NNode.lastActivation, NNode.lastActivation2, NNode.isActive, NNode.visited
+//@   ensures [ok] res && err == nil
+//@   ensures [allReset] forall i :: 0 <= i && i < len(n.allNodes) ==> rtZero(n.allNodes[i])
+//@   loop 1:
+//@     invariant -1 <= #idx && #idx < len(n.allNodes) && res && err == nil
+//@     invariant forall i :: 0 <= i && i <= #idx ==> rtZero(n.allNodes[i])
+
+// Fast solver: the state arrays are distinct, of the declared size, and the counters are consistent.
+//@ pred solverWF(s *FastModularNetworkSolver) = 0 <= s.biasNeuronCount && 0 <= s.inputNeuronCount && s.sensorNeuronCount == s.biasNeuronCount + s.inputNeuronCount && 0 <= s.outputNeuronCount && s.sensorNeuronCount + s.outputNeuronCount <= s.totalNeuronCount && len(s.neuronSignals) == s.totalNeuronCount && len(s.neuronSignalsBeingProcessed) == s.totalNeuronCount && len(s.activated) == s.totalNeuronCount && len(s.inActivation) == s.totalNeuronCount && len(s.lastActivation) == s.totalNeuronCount && (s.totalNeuronCount > 0 ==> base(s.neuronSignals) != base(s.neuronSignalsBeingProcessed) && base(s.neuronSignals) != base(s.lastActivation) && base(s.neuronSignalsBeingProcessed) != base(s.lastActivation) && base(s.activated) != base(s.inActivation))
+//@ func (*FastModularNetworkSolver).Flush
+//@   props C13
+//@   requires s != nil && solverWF(s)
+//@   modifies Mem[float64]
+//@   noalloc
+//@   ensures [ok] result0 && result1 == nil
+//@   ensures [signals] forall i :: s.biasNeuronCount <= i && i < s.totalNeuronCount ==> s.neuronSignals[i] == 0.0
+//@   ensures [scratch] forall i :: s.biasNeuronCount <= i && i < s.totalNeuronCount ==> s.neuronSignalsBeingProcessed[i] == 0.0
+//@   ensures [bias] forall i :: 0 <= i && i < s.biasNeuronCount ==> s.neuronSignals[i] == old(s.neuronSignals[i])
+//@   ensures [biasScratch] forall i :: 0 <= i && i < s.biasNeuronCount ==> s.neuronSignalsBeingProcessed[i] == old(s.neuronSignalsBeingProcessed[i])
+//@   ensures [frame] forall b :: b != base(s.neuronSignals) && b != base(s.neuronSignalsBeingProcessed) ==> Mem[float64][b] == old(Mem[float64][b])
+//@   loop 1:
+//@     invariant s.biasNeuronCount <= i && i <= s.totalNeuronCount
+//@     invariant forall k :: s.biasNeuronCount <= k && k < i ==> s.neuronSignals[k] == 0.0
+//@     invariant forall k :: s.biasNeuronCount <= k && k < i ==> s.neuronSignalsBeingProcessed[k] == 0.0
+//@     invariant forall k :: 0 <= k && k < s.biasNeuronCount ==> s.neuronSignals[k] == old(s.neuronSignals[k])
+//@     invariant forall k :: 0 <= k && k < s.biasNeuronCount ==> s.neuronSignalsBeingProcessed[k] == old(s.neuronSignalsBeingProcessed[k])
+//@     invariant forall b :: b != base(s.neuronSignals) && b != base(s.neuronSignalsBeingProcessed) ==> Mem[float64][b] == old(Mem[float64][b])
+//@ func (*FastModularNetworkSolver).LoadSensors
+//@   props C13
+//@   requires s != nil && solverWF(s) && ErrNetUnsupportedSensorsArraySize != nil
+//@   requires [noAlias] s.totalNeuronCount > 0 ==> base(inputs) != base(s.neuronSignals)
+//@   modifies Mem[float64]
+//@   noalloc
+//@   ensures [sizeError] len(inputs) != s.inputNeuronCount <==> result != nil
+//@   ensures [loaded] result == nil ==> (forall i :: 0 <= i && i < s.inputNeuronCount ==> s.neuronSignals[i + s.biasNeuronCount] == old(inputs[i]))
+//@   ensures [biasKept] forall i :: 0 <= i && i < s.biasNeuronCount ==> s.neuronSignals[i] == old(s.neuronSignals[i])
+//@   ensures [neuronsKept] forall i :: s.sensorNeuronCount <= i && i < s.totalNeuronCount ==> s.neuronSignals[i] == old(s.neuronSignals[i])
+//@   ensures [frame] forall b :: b != base(s.neuronSignals) ==> Mem[float64][b] == old(Mem[float64][b])
+//@   loop 1:
+//@     invariant 0 <= i && i <= s.inputNeuronCount && len(inputs) == s.inputNeuronCount
+//@     invariant forall k :: 0 <= k && k < i ==> s.neuronSignals[k + s.biasNeuronCount] == old(inputs[k])
+//@     invariant forall k :: 0 <= k && k < s.biasNeuronCount ==> s.neuronSignals[k] == old(s.neuronSignals[k])
+//@     invariant forall k :: s.biasNeuronCount + i <= k && k < s.totalNeuronCount ==> s.neuronSignals[k] == old(s.neuronSignals[k])
+//@     invariant forall b :: b != base(s.neuronSignals) ==> Mem[float64][b] == old(Mem[float64][b])
